@@ -64,7 +64,13 @@ def main():
                 if saved is not None:       # evidence must describe the unchanged tree
                     open(evf, 'w').write(saved)
                 viol = [l for l in r.stdout.splitlines() if l.startswith('VIOLATION')]
-                res[p] = dict(status='caught' if (r.returncode == 1 and viol) else f'MISSED(exit={r.returncode})',
+                if meta.get('harmless'):
+                    st = 'quiet' if (r.returncode == 0 and not viol) else \
+                        ('broke-obligation(no-failing-input-found)' if viol and viol[0].rstrip().endswith('no-failing-input-found')
+                         else f'FALSE-ALARM(exit={r.returncode})')
+                else:
+                    st = 'caught' if (r.returncode == 1 and viol) else f'MISSED(exit={r.returncode})'
+                res[p] = dict(status=st,
                               line=viol[0] if viol else '', wall_s=round(time.time() - t0, 1),
                               tail=r.stdout[-400:] if not viol else '')
         finally:
@@ -79,6 +85,8 @@ def main():
             rows.append((name, p, v['status'], v.get('line', '')))
     by = {}
     for name, p, st, line in rows:
+        if str(st).startswith(('quiet', 'broke-obligation', 'FALSE-ALARM')):
+            continue
         by.setdefault(name, []).append(str(st).startswith('caught'))
     caught = [n for n, v in by.items() if any(v)]
     print(f'\n{len(caught)}/{len(by)} seeded changes caught by at least one of their checks; missed: '
